@@ -13,7 +13,6 @@ from geometer.utils import (
     is_multiple,
     is_numerical_dtype,
     is_numerical_scalar,
-    normalize_index,
     posify_index,
     sanitize_index,
 )
@@ -242,41 +241,67 @@ class Tensor:
         return f"{self.__class__.__name__}({self.array.tolist()})"
 
     def _get_index_mapping(self, index: TensorIndex) -> list[int | None]:
-        normalized_index = normalize_index(index, self.shape)  # type: ignore[no-untyped-call]
-        advanced_indices = []
-        index_mapping: list[int | None] = list(range(self.rank))
-        i = 0
-        for ind in normalized_index:
-            # axis with integer index will be removed
-            if isinstance(ind, int):
-                index_mapping.pop(i)
-                continue
+        # maps every axis of self.array[index] to the axis of self.array it comes from (None for a new axis),
+        # following the indexing rules of numpy
+        if not isinstance(index, tuple):
+            index = (index,)
 
-            # new axis inserted by None index
+        # every index element as (kind, number of consumed axes, dimension of the index array)
+        elements: list[tuple[str, int, int]] = []
+        for ind in index:
             if ind is None:
-                index_mapping.insert(i, None)
+                elements.append(("newaxis", 0, 0))
+            elif ind is Ellipsis:
+                elements.append(("ellipsis", 0, 0))
+            elif isinstance(ind, slice):
+                elements.append(("slice", 1, 0))
+            elif isinstance(ind, (int, np.integer)):
+                elements.append(("integer", 1, 0))
+            else:
+                index_array = np.asarray(ind)
+                if index_array.dtype == bool:
+                    # a boolean mask consumes one axis per dimension and is equivalent to 1-dimensional index arrays
+                    elements.append(("array", index_array.ndim, 1))
+                else:
+                    elements.append(("array", 1, index_array.ndim))
 
-            # advanced indexing
-            elif isinstance(ind, np.ndarray):
-                advanced_indices.append(i)
+        # replace the ellipsis by slices and add the omitted slices at the end
+        missing = self.rank - sum(e[1] for e in elements)
+        expanded: list[tuple[str, int, int]] = []
+        for e in elements:
+            if e[0] != "ellipsis":
+                expanded.append(e)
+            elif missing > 0:
+                expanded.extend([("slice", 1, 0)] * missing)
+                missing = 0
+            else:
+                # an ellipsis that stands for no axis still separates the advanced indices on both sides
+                expanded.append(("separator", 0, 0))
+        expanded.extend([("slice", 1, 0)] * missing)
 
-            i += 1
+        # integers are advanced indices too as soon as there is an index array
+        array_dims = [e[2] for e in expanded if e[0] == "array"]
+        advanced = [i for i, e in enumerate(expanded) if e[0] == "array" or (len(array_dims) > 0 and e[0] == "integer")]
+        broadcast_ndim = max(array_dims) if len(array_dims) > 0 else 0
+        adjacent = len(advanced) == 0 or advanced == list(range(advanced[0], advanced[-1] + 1))
 
-        if len(advanced_indices) == 0:
-            return index_mapping
+        index_mapping: list[int | None] = []
+        axis = 0
+        for i, e in enumerate(expanded):
+            if e[0] == "slice":
+                index_mapping.append(axis)
+            elif e[0] == "newaxis":
+                index_mapping.append(None)
+            elif len(advanced) > 0 and adjacent and i == advanced[0]:
+                # the broadcast dimensions of adjacent advanced indices replace them in place
+                index_mapping.extend([None] * broadcast_ndim)
+            axis += e[1]
 
-        b = np.broadcast(*[normalized_index[i] for i in advanced_indices])
-        a0, a1 = advanced_indices[0], advanced_indices[-1]
+        if not adjacent:
+            # advanced indices that are separated by a slice or a new axis are moved to the front
+            return [None] * broadcast_ndim + index_mapping
 
-        if advanced_indices != list(range(a0, a1 + 1)):
-            # create advanced indices in front
-            for i in advanced_indices:
-                index_mapping.remove(i)
-            new_indices: list[int | None] = [None] * b.ndim
-            return new_indices + index_mapping
-        else:
-            # replace indices with broadcast shape
-            return index_mapping[:a0] + [None] * b.ndim + index_mapping[a1 + 1 :]
+        return index_mapping
 
     def __getitem__(self, index: TensorIndex) -> Tensor | np.generic:
         result = self.array[index]
